@@ -199,6 +199,8 @@ structure CfgOK (c : Cfg) (s0 : St) : Prop where
   names : ∀ a, (c.namesOf a).isEmpty = true → (c.filesOf a).isEmpty = true
   cleanF : ∀ a, ∀ f ∈ c.filesOf a, NoTrailingSlash f
   cleanD : ∀ d ∈ s0.disk, NoTrailingSlash d.path
+  /-- a restart rebuilds the tables the fork started with -/
+  init : c.initArgs = s0.fileArgs ∧ c.initPost = s0.postNodes
 
 theorem refs_nonempty {c : Cfg} {a : Arg} {p : Path} (h : refs c a p = true) : (c.filesOf a).isEmpty = false := by
   cases hf : (c.filesOf a).isEmpty with
@@ -483,10 +485,17 @@ theorem Inv.step {c : Cfg} {s0 s : St} (ok : CfgOK c s0) (hv : c.volatile = true
   | nodeDone n => exact i.nodeDone n
   | nodeFailed n => exact i
   | nodeReset n => exact i
+  | restart =>
+    refine ⟨?_, ?_, i.safe, i.sub, i.split, i.rsub⟩
+    · intro a h hh
+      refine Or.inr (Or.inl ?_)
+      obtain ⟨hs, hm, hin⟩ := hh
+      exact ⟨hs, by show (a, hs) ∈ c.initArgs; rw [ok.init.1]; exact hm, hin⟩
+    · intro es he; cases he
   | removeEmpty => exact i.removeEmpty ok
   | cacheMap => exact i.cacheMap
   | early upto =>
-    show Inv c s0 (if s.final then s else Martian.Vdr.cleanTmp c s (min upto 2))
+    show Inv c s0 (if s.final then s else Martian.Vdr.cleanTmp c s (min upto 3))
     split
     · exact i
     · exact i.cleanTmp _
